@@ -1,7 +1,13 @@
 (* The frames one offer writes: stages of a frame slot between the writer's accesses, the list of
    (offset, final slot) of all fragments of a message, its extent (= the bytes claimed by get_and_add). *)
-Require Import V.Base.MachineInt V.Generated.GenConsts V.Model.LogBase V.Model.Descriptor V.Proofs.DescriptorProofs
-               V.Model.Sched V.Model.AppenderThreads V.Proofs.TailArith.
+Require Import V.Base.MachineInt.
+Require Import V.Generated.GenConsts.
+Require Import V.Model.LogBase.
+Require Import V.Model.Descriptor.
+Require Import V.Proofs.DescriptorProofs.
+Require Import V.Model.Sched.
+Require Import V.Model.AppenderThreads.
+Require Import V.Proofs.TailArith.
 From Coq Require Import ZifyBool.
 Open Scope Z_scope.
 
